@@ -8,6 +8,7 @@ require (
 	github.com/meshplus/bitxhub v0.0.0
 	github.com/meshplus/bitxhub-kit v1.28.0
 	github.com/meshplus/bitxhub-model v1.28.1-0.20230411032618-24ca54eec606
+	github.com/meshplus/eth-kit v1.28.0
 	github.com/sirupsen/logrus v1.8.1
 	pgregory.net/rapid v1.3.0
 )
@@ -117,7 +118,6 @@ require (
 	github.com/mattn/go-runewidth v0.0.9 // indirect
 	github.com/matttproud/golang_protobuf_extensions v1.0.1 // indirect
 	github.com/meshplus/bitxhub-core v1.28.1-0.20230411032641-11245b4adfc5 // indirect
-	github.com/meshplus/eth-kit v1.28.0 // indirect
 	github.com/meshplus/go-libp2p-cert v1.28.0 // indirect
 	github.com/meshplus/go-lightp2p v1.28.0 // indirect
 	github.com/minio/blake2b-simd v0.0.0-20160723061019-3f5f724cb5b1 // indirect
